@@ -47,16 +47,12 @@
 
    Definitions only; proofs are in PyramidProofs.v. *)
 From Coq Require Import ZArith List Bool Arith.
-From JLS Require Import Generated Spec.
+From JLS Require Import Generated.
 Import ListNotations.
 Local Open Scope Z_scope.
 
 (* ---- definition parameters ---- *)
 Record py_def : Set := { py_spd : Z; py_sdf : Z; py_eps : Z; py_sumdf : Z }.
-
-Definition py_def_of_sigdef (s : sigdef) : py_def :=
-  {| py_spd := Z.of_N (sg_spd s); py_sdf := Z.of_N (sg_sdf s);
-     py_eps := Z.of_N (sg_eps s); py_sumdf := Z.of_N (sg_sumdf s) |}.
 
 (* entries_per_data of jls_core_fsr_summary_level_alloc *)
 Definition py_epd (d : py_def) : Z := py_spd d / py_sdf d.
